@@ -303,12 +303,14 @@ def replay(rec: dict) -> bool:
         from harness.rigs import isolation_order as iord
         return not iord.monitor_build(rp["cfg"], _READ_GLOBALS, x_ss.build(), lean_roles())["problems"]
     if rp.get("type") == "dirty-history":
-        if not isinstance(rp["cfg"], dict):
-            return False  # scenario directory copied to a temporary place: re-run the check instead
+        if not isinstance(rp["cfg"], dict) and not rp.get("files"):
+            return False  # scenario directory copied to a temporary place and not carried by the record: re-run the check instead
         _prepare_replay()
         history = [tuple(x) for x in rp["history"]]
         later = [tuple(x) for x in rp["later"]]
         fresh_resets = rp.get("fresh_resets", sum(1 for op in history if op[0] == "reset"))
+        if rp.get("files"):    # an episode-scheduled scenario: the record carries the folder
+            return iso.compare_after_history(_write_folder(rp["files"]), history, fresh_resets, later, make=make_env_path)["diff"] is None
         return iso.compare_after_history(rp["cfg"], history, fresh_resets, later)["diff"] is None
     return False  # identity / scheduler / global-mutated records are not re-executable on their own: re-run the check
 
@@ -646,7 +648,7 @@ def _do_dirty(ctx: Rec, unit: dict):
                           + (" that starts its reset from the same generator state" if seed is None else "") +
                           f" at record {d['index']} in {d['component']} {d.get('path', '')}: used={d.get('a')} fresh={d.get('b')}",
                           {"type": "dirty-history", "scenario": label, "cfg": cfg if isinstance(cfg, dict) else str(cfg),
-                           "history": [list(x) for x in res["history"]], "fresh_resets": res["fresh_resets"], "later": [list(x) for x in res["later"]], "diff": d})
+                           **({} if isinstance(cfg, dict) else {"files": _folder_files(cfg)}), "history": [list(x) for x in res["history"]], "fresh_resets": res["fresh_resets"], "later": [list(x) for x in res["later"]], "diff": d})
         # model: used = instance 0, fresh = instance 1, same environment-level attributes; the seed argument goes to the model AS IT IS
         lines = ["reset", f"new 0 7 1 0 {rngflag} {sched_flag} 0 {buildflag}", f"new 1 7 1 0 {rngflag} {sched_flag} 0 {buildflag}", f"ev 0 {ctor}"]
         for op in res["history"]:
